@@ -453,19 +453,67 @@ agraph ({xdecl}) => (float[?,?] y)
 }}"""
 
 
+def fam_const_if(rng: Rng) -> str:
+    """An If whose condition is a compile-time constant and whose branches own initializers, 0-4 of which share their
+    names with main-graph initializers (constant folding inlines the taken branch and has to move / rename them)."""
+    names = ["scale", "bias", "offset", "gain"]
+    v = _variant(rng, [("clash2", 3), ("clash3", 2), ("clash4", 1), ("clash1", 1), ("clash0", 1), ("dynamic_cond", 1), ("else_taken", 2)])
+    n_clash = {"clash0": 0, "clash1": 1, "clash2": 2, "clash3": 3, "clash4": 4}.get(v, 2)
+    order = list(names)
+    rng.shuffle(order)
+    main = order[:rng.randint(max(2, n_clash), 4)]
+    branch = main[:n_clash] + [f"only_{i}" for i in range(rng.randint(0, 2))]
+    rng.shuffle(branch)
+    cond_init = "" if v == "dynamic_cond" else f", bool cond = {{{0 if v == 'else_taken' else 1}}}"
+    cond_in = ", bool cond" if v == "dynamic_cond" else ""
+
+    def inits(ns, base):
+        return ", ".join(f"float[2] {n} = {{{base + i}.0, {base + i}.5}}" for i, n in enumerate(ns))
+
+    def chain(ns, src, out):
+        lines, cur = [], src
+        for i, n in enumerate(ns):
+            nxt = out if i == len(ns) - 1 else f"{out}_{i}"
+            lines.append(f"{nxt} = {rng.choice(['Mul', 'Add', 'Sub'])}({cur}, {n})")
+            cur = nxt
+        if not ns:
+            lines.append(f"{out} = Neg({src})")
+        return "\n          ".join(lines)
+
+    then_inits = f"<{inits(branch, 3)}>" if branch else ""
+    other = [f"e_{n}" for n in branch[:2]] if rng.chance(0.5) else branch[:2]
+    else_inits = f"<{inits(other, 7)}>" if other else ""
+    taken_then, taken_else = (branch, other)
+    return f"""<ir_version: 10, opset_import: ["" : 20]>
+agraph (float[2] x{cond_in}) => (float[2] y)
+<{inits(main, 1)}{cond_init}>
+{{
+   s = Mul(x, {main[0]})
+   y0 = If (cond) <
+      then_branch = then_g () => (float[2] t_out) {then_inits} {{
+          {chain(taken_then, "s", "t_out")}
+      }},
+      else_branch = else_g () => (float[2] e_out) {else_inits} {{
+          {chain(taken_else, "s", "e_out")}
+      }}
+   >
+   y = Add(y0, {main[-1]})
+}}"""
+
+
 FAMILIES = {
     "pad_conv": fam_pad_conv, "pad_conv_tail": fam_pad_conv_fail_tail, "reshape_reshape": fam_reshape_reshape,
     "flatten": fam_flatten, "cast_cast": fam_cast_cast, "transpose": fam_transpose, "minmax": fam_minmax,
     "clip_relu": fam_clip_relu, "unsqueeze": fam_unsqueeze, "bn_conv": fam_batchnorm_conv, "bn_gemm": fam_batchnorm_gemm,
     "matmul_add": fam_matmul_add, "slice": fam_slice, "expand": fam_expand, "cast_cos": fam_cast_constant_of_shape,
     "mat_reshape": fam_materialize_reshape, "fold_chain": fam_fold_chain,
-    "rms_norm": fam_rms_norm, "layer_norm": fam_layer_norm, "gelu": fam_gelu, "slice_split": fam_slice_split,
+    "rms_norm": fam_rms_norm, "layer_norm": fam_layer_norm, "gelu": fam_gelu, "slice_split": fam_slice_split, "const_if": fam_const_if,
 }
 
 
 # families whose members walk through declared variants: a batch takes one member per variant (capped), so that every
 # special path of the rule's check() is in every batch; other families vary only in parameters and get 3 members
-N_VARIANTS = {"pad_conv": 12, "reshape_reshape": 8, "fold_chain": 9, "slice_split": 7}
+N_VARIANTS = {"pad_conv": 12, "reshape_reshape": 8, "fold_chain": 9, "slice_split": 7, "const_if": 7}
 
 
 def members_per_batch(family: str, default: int, cap: int = 9) -> int:
